@@ -30,12 +30,12 @@ func implPass(raw json.RawMessage) (any, error) {
 	return world.Extract(res), nil
 }
 
-var passOpts = world.GenOpts{CapOverride: 0.3, InterPod: 0.15, NodeAffinity: 0.45, Existing: 0.7, Limits: 0.2}
+var passOpts = world.GenOpts{CapOverride: 0.3, MultiTaint: 0.3, InterPod: 0.15, NodeAffinity: 0.45, Existing: 0.7, Limits: 0.2}
 
 // genExisting: one node (any lifecycle stage, possibly unmanaged or deleting) with bound pods, daemonsets, and ONE pending
 // pod without inter-pod constraints; every NodePool has a CPU limit of 0 so that no new capacity can be opened.
 func genExisting(r *rand.Rand, t core.Tier) any {
-	o := world.GenOpts{InterPod: 0, NodeAffinity: 0.6, Existing: 1.0}
+	o := world.GenOpts{MultiTaint: 0.35, InterPod: 0, NodeAffinity: 0.6, Existing: 1.0}
 	its := world.GenITs(r, o)
 	pools := world.GenPools(r, its, o)
 	zero := int64(0)
